@@ -80,12 +80,18 @@ def apply_constraints(obj, T, skip=False):
         # WITH COMPONENTS { name (lo..hi) }: a value constraint on a member; it applies when the member is present
         obj = obj.subtype(subtypeSpec=constraint.WithComponentsConstraint(
             *[(n, constraint.ValueRangeConstraint(lo, hi)) for n, (lo, hi) in sorted(T['within'].items())]))
+    if 'within_and' in T:
+        # WITH COMPONENTS { name ((lo..hi)) }: the value constraint spelled as a one-operand set -- still a value constraint,
+        # it applies when the member is present
+        obj = obj.subtype(subtypeSpec=constraint.WithComponentsConstraint(
+            *[(n, constraint.ConstraintsIntersection(constraint.ValueRangeConstraint(lo, hi)))
+              for n, (lo, hi) in sorted(T['within_and'].items())]))
     return obj
 
 
 def strip_constraints(T):
     """the unconstrained twin of a universe type (same tags and structure)"""
-    t = {k: v for k, v in T.items() if k not in ('range', 'size', 'present', 'absent', 'within', 'violating', 'one')}
+    t = {k: v for k, v in T.items() if k not in ('range', 'size', 'present', 'absent', 'within', 'within_and', 'violating', 'one')}
     if 'fields' in t:
         t['fields'] = [(n, strip_constraints(ft), m) for n, ft, m in t['fields']]
     if 'elem' in t:
